@@ -203,6 +203,10 @@ def gen_specs(rng, quick):
     specs.append({"kind": "datasets", "n_points": int(rng.integers(4, 10))})
     if not quick:
         specs.append({"kind": "datasets", "n_points": 21})
+    doms = [[2.0, 10.0], [-1.0, 1.0], [1.0, 365.0]]             # simulation grids that do not span [0, 1]
+    for j, sp in enumerate(specs):
+        if j % 3 == 2:
+            sp["domain"] = doms[(j // 3) % len(doms)]
     return specs
 
 
@@ -532,9 +536,11 @@ def brownian(rep, rng, quick, dd, run, todo):
         lo = float(rng.choice([0.0, -1.0, 2.0]))
         hi = lo + float(rng.choice([1.0, 0.5, 3.0]))
         t = np.linspace(lo, hi, m)
+        if i % 3 == 2:
+            t = np.arange(int(lo), int(lo) + m)          # a regular grid with an INTEGER dtype (days, indices)
         n_obs = int(rng.integers(1, 4))
         seed = int(rng.integers(0, 2 ** 31))
-        delta = (np.max(t) - np.min(t)) / np.size(t)
+        delta = float(np.max(t) - np.min(t)) / np.size(t)
         sd = float(np.sqrt(delta))
         # ---- standard
         init = float(rng.choice([0.0, 1.5, -2.25, 10.0]))
